@@ -118,7 +118,12 @@ fn observe(r: Result<Result<TooDee<u32>, serde_json::Error>, ()>) -> DeOut {
 }
 
 fn in_place_priors() -> Vec<(&'static str, TooDee<u32>)> {
-    vec![("empty", TooDee::default()), ("2x2", TooDee::from_vec(2, 2, vec![901, 902, 903, 904])), ("4x3", TooDee::init(4, 3, 777u32))]
+    // every cell count a small document can state (0, 1, 2, 3, 4, 6, 9) and a larger one, in two orientations
+    let mut v: Vec<(&'static str, TooDee<u32>)> = vec![("empty", TooDee::default())];
+    for (n, c, r) in [("1x1", 1usize, 1usize), ("2x1", 2, 1), ("1x2", 1, 2), ("3x1", 3, 1), ("2x2", 2, 2), ("3x2", 3, 2), ("2x3", 2, 3), ("3x3", 3, 3), ("4x3", 4, 3)] {
+        v.push((n, TooDee::from_vec(c, r, (0..(c * r) as u32).map(|i| 901 + i).collect())));
+    }
+    v
 }
 
 fn observe_in_place(text: &str, prior: TooDee<u32>) -> DeOut {
